@@ -533,7 +533,10 @@ class Runner:
             ii = pd.IntervalIndex.from_tuples([(float(a), float(b)) for a, b in s["bins"]], closed=s["closed"])
             conv = (lambda v: num(v)) if (self.dom.name in ("float", "int") or s["stat"] in ("probability", "density")) else self.dom.length_back
             try:
-                df = self.slicer(st, s).hist(bins=ii, stat=s["stat"])
+                if self.fl.get("slicecall") == "applyargs":       # bins given positionally, as Stairs.hist accepts them
+                    df = self.slicer(st, s).hist(ii, stat=s["stat"])
+                else:
+                    df = self.slicer(st, s).hist(bins=ii, stat=s["stat"])
                 obs = []
                 for row in df.values.tolist():
                     obs += [{"t": "skip"}, {"t": "vals", "vals": [conv(v) for v in row]}]
